@@ -179,7 +179,13 @@ Definition out_of_contract (s : xst) (o : xop) : bool :=
   | XoCreate tid _ _ _ | XoDestroy tid _ | XoDestroyNow tid _ => match x_lock s with O => false | S _ => negb (tid_ok s tid) end
   | XoAssignShared k _ _ => negb (alive_x s k) || negb (Nat.eqb (x_lock s) 0)
   | XoRemoveShared k _ => negb (Nat.eqb (x_lock s) 0)
-  | XoClone k => negb (Nat.eqb (x_lock s) 0)
+  | XoClone k =>
+    negb (Nat.eqb (x_lock s) 0) ||
+    (* a run-time described component has no clone function (the C interface offers no clone) *)
+    match find_ent s k with
+    | Some e => existsb (fun p => match nth_error (x_cinfos s) (fst p) with Some i => negb (ci_clone i) | None => false end) (e_comps e)
+    | None => false
+    end
   | XoUpdate | XoClear | XoClearArch _ _ => negb (Nat.eqb (x_lock s) 0)
   | _ => false
   end.
